@@ -15,6 +15,7 @@ SPEC = os.path.join(VERIF, "spec")
 JAR_CP = "/opt/veriftools/tla/tla2tools.jar:/opt/veriftools/tla/CommunityModules-deps.jar"
 
 _scratch = None
+JAVA = shutil.which("java") or "java"      # resolved once: checks may later restrict PATH
 
 
 def scratch():
@@ -175,7 +176,7 @@ def run(module, cfg, env=None, workers=1, timeout=1800, simulate=None, depth=Non
     cfg_path = os.path.join(work, module + ".cfg")
     with open(cfg_path, "w") as f:
         f.write(cfg)
-    cmd = ["java", "-XX:+UseParallelGC", "-Xss" + xss, "-Xmx" + xmx, "-cp", JAR_CP, "tlc2.TLC",
+    cmd = [JAVA, "-XX:+UseParallelGC", "-Xss" + xss, "-Xmx" + xmx, "-cp", JAR_CP, "tlc2.TLC",
            "-workers", str(workers), "-metadir", os.path.join(work, "meta"),
            "-noGenerateSpecTE", "-config", cfg_path]
     if coverage:
@@ -222,7 +223,7 @@ def run(module, cfg, env=None, workers=1, timeout=1800, simulate=None, depth=Non
 
 
 def sany(module):
-    cmd = ["java", "-cp", JAR_CP, "tla2sany.SANY", os.path.join(SPEC, module + ".tla")]
+    cmd = [JAVA, "-cp", JAR_CP, "tla2sany.SANY", os.path.join(SPEC, module + ".tla")]
     p = subprocess.run(cmd, cwd=SPEC, stdout=subprocess.PIPE, stderr=subprocess.STDOUT,
                        universal_newlines=True)
     ok = p.returncode == 0 and "Semantic errors" not in p.stdout and "***Parse Error***" not in p.stdout \
